@@ -22,6 +22,7 @@ import (
 	"encoding/binary"
 	"encoding/hex"
 	"encoding/json"
+	"errors"
 	"flag"
 	"fmt"
 	"math/rand"
@@ -30,6 +31,8 @@ import (
 	"os"
 	"reflect"
 	"strconv"
+	"sync"
+	"syscall"
 	"time"
 
 	"github.com/irai/packet"
@@ -90,6 +93,7 @@ type vector struct {
 	FB  int    `json:"fb"`
 	FM  int    `json:"fm"`
 	W   int    `json:"w"`
+	Flt string `json:"flt"`
 }
 
 type failure struct {
@@ -99,46 +103,50 @@ type failure struct {
 }
 
 type summary struct {
-	Vectors        int            `json:"vectors"`
-	ByKind         map[string]int `json:"by_kind"`
-	OracleMismatch []string       `json:"oracle_mismatch"`
-	LibChecks      int            `json:"lib_checks"`
-	LibByOp        map[string]int `json:"lib_by_op"`
-	Sweep3         int            `json:"sweep_len3"`
-	Sweep3Full     bool           `json:"sweep_len3_exhaustive"`
-	Perturb        int            `json:"perturbations"`
-	Random         int            `json:"random_strings"`
-	RandomLens     int            `json:"random_lengths"`
-	Splits         int            `json:"split_checks"`
-	FoldBE         map[string]int `json:"vectors_by_folds_needed_be"`
-	FoldLE         map[string]int `json:"vectors_by_folds_needed_le"`
-	Hook           bool           `json:"hook_icmp_send_present"`
-	Crit6Sent      int            `json:"crit6_sent_through_hook"`
-	Oversize       int            `json:"directed_configs_skipped_oversize"`
-	Directed       int            `json:"directed_sends"`
-	DirectedByLen  map[string]int `json:"directed_by_icmp6_length"`
-	DirectedHit    int            `json:"directed_targets_reached"`
-	FullSweeps     map[string]int `json:"full_16bit_sweeps"`
-	ConcHeaders    int            `json:"concurrent_headers"`
-	ConcFrames     int            `json:"concurrent_frames"`
-	LongVectors    int            `json:"long_tlc_vectors"`
-	LongInputs     int            `json:"long_inputs"`
-	LongSplits     int            `json:"long_split_checks"`
-	LongWrapping   int            `json:"long_inputs_with_accumulator_overflow"`
-	HdrSweep       int            `json:"hdr_field_sweep"`
-	EchoSweep      int            `json:"echo_payload_sweep"`
-	Frames         int            `json:"frames_verified"`
-	FramesByFn     map[string]int `json:"frames_by_fn"`
-	Refused        map[string]int `json:"send_refused"`
-	Drift          []string       `json:"drift"`
-	Failures       []failure      `json:"failures"`
-	DistinctInputs int            `json:"distinct_inputs"`
-	Panics         int            `json:"panics"`
-	Samples        []interface{}  `json:"samples"`
+	Vectors          int            `json:"vectors"`
+	ByKind           map[string]int `json:"by_kind"`
+	OracleMismatch   []string       `json:"oracle_mismatch"`
+	LibChecks        int            `json:"lib_checks"`
+	LibByOp          map[string]int `json:"lib_by_op"`
+	Sweep3           int            `json:"sweep_len3"`
+	Sweep3Full       bool           `json:"sweep_len3_exhaustive"`
+	Perturb          int            `json:"perturbations"`
+	Random           int            `json:"random_strings"`
+	RandomLens       int            `json:"random_lengths"`
+	Splits           int            `json:"split_checks"`
+	FoldBE           map[string]int `json:"vectors_by_folds_needed_be"`
+	FoldLE           map[string]int `json:"vectors_by_folds_needed_le"`
+	Hook             bool           `json:"hook_icmp_send_present"`
+	Crit6Sent        int            `json:"crit6_sent_through_hook"`
+	Oversize         int            `json:"directed_configs_skipped_oversize"`
+	Directed         int            `json:"directed_sends"`
+	DirectedByLen    map[string]int `json:"directed_by_icmp6_length"`
+	DirectedHit      int            `json:"directed_targets_reached"`
+	FullSweeps       map[string]int `json:"full_16bit_sweeps"`
+	ConcHeaders      int            `json:"concurrent_headers"`
+	ConcFrames       int            `json:"concurrent_frames"`
+	WideFold         int            `json:"wide_fold_solved_inputs"`
+	LongVectors      int            `json:"long_tlc_vectors"`
+	LongInputs       int            `json:"long_inputs"`
+	LongSplits       int            `json:"long_split_checks"`
+	LongWrapping     int            `json:"long_inputs_with_accumulator_overflow"`
+	HdrSweep         int            `json:"hdr_field_sweep"`
+	EchoSweep        int            `json:"echo_payload_sweep"`
+	Frames           int            `json:"frames_verified"`
+	FramesByFn       map[string]int `json:"frames_by_fn"`
+	Refused          map[string]int `json:"send_refused"`
+	FaultReturned    map[string]int `json:"sends_failed_after_injected_write_error"`
+	FaultRecovered   map[string]int `json:"sends_succeeded_after_injected_write_error"`
+	FramesAfterFault int            `json:"frames_transmitted_after_injected_write_error"`
+	Drift            []string       `json:"drift"`
+	Failures         []failure      `json:"failures"`
+	DistinctInputs   int            `json:"distinct_inputs"`
+	Panics           int            `json:"panics"`
+	Samples          []interface{}  `json:"samples"`
 }
 
 var (
-	sum = summary{ByKind: map[string]int{}, LibByOp: map[string]int{}, FramesByFn: map[string]int{}, Refused: map[string]int{},
+	sum = summary{ByKind: map[string]int{}, LibByOp: map[string]int{}, FramesByFn: map[string]int{}, Refused: map[string]int{}, FaultReturned: map[string]int{}, FaultRecovered: map[string]int{},
 		FoldBE: map[string]int{}, FoldLE: map[string]int{}, DirectedByLen: map[string]int{}, FullSweeps: map[string]int{}}
 	perKey   = map[string]int{}
 	distinct = map[uint64]struct{}{}
@@ -163,6 +171,9 @@ func fail(key, what string, c map[string]interface{}) {
 	perKey[key]++
 	if perKey[key] > 5 {
 		return
+	}
+	if c != nil && (c["op"] == "send" || c["op"] == "pair") {
+		c["fault"] = lastFault
 	}
 	if c != nil && c["op"] == "send" {
 		h := historyCopy()
@@ -358,12 +369,63 @@ func checkFrame(f []byte) (problem string, msg []byte, stored [2]byte, v6 bool, 
 // ---------------------------------------------------------------------------------------------
 // session
 
+// faultConn is the session's connection: a recording connection whose next WriteTo calls can be made to fail with a
+// chosen error. Only frames of successful writes reach the recording (= the wire); every one of them is verified.
+type faultConn struct {
+	*vh.RecConn
+	mu   sync.Mutex
+	next []error
+}
+
+func (c *faultConn) WriteTo(b []byte, addr net.Addr) (int, error) {
+	c.mu.Lock()
+	if len(c.next) > 0 {
+		err := c.next[0]
+		c.next = c.next[1:]
+		c.mu.Unlock()
+		return 0, err
+	}
+	c.mu.Unlock()
+	return c.RecConn.WriteTo(b, addr)
+}
+
+func (c *faultConn) arm(errs ...error) { c.mu.Lock(); c.next = errs; c.mu.Unlock() }
+
+type tempErr struct{}
+
+func (tempErr) Error() string   { return "verif: injected temporary failure" }
+func (tempErr) Timeout() bool   { return true }
+func (tempErr) Temporary() bool { return true }
+
+// faultKinds: the write failures injected before a send ("fail then succeed"): the first WriteTo of the call fails with
+// the error, later ones succeed.
+var faultKinds = []string{"ENOBUFS", "EAGAIN", "wrapped-ENOBUFS", "temporary", "permanent"}
+
+func faultErr(kind string) error {
+	switch kind {
+	case "ENOBUFS":
+		return syscall.ENOBUFS
+	case "EAGAIN":
+		return syscall.EAGAIN
+	case "wrapped-ENOBUFS":
+		return &net.OpError{Op: "write", Net: "packet", Err: os.NewSyscallError("sendto", syscall.ENOBUFS)}
+	case "temporary":
+		return tempErr{}
+	case "permanent":
+		return errors.New("verif: injected permanent failure")
+	}
+	return nil
+}
+
 type sess struct {
-	s      *packet.Session
-	conn   *vh.RecConn
-	hook6  reflect.Value // Session.VerifICMP6SendPacket when /repo carries hooks/cksumlog_icmp_send.patch, else invalid
-	hook4  reflect.Value
-	quietH bool // do not record sends in the history (full sweeps)
+	fc      *faultConn
+	noFault bool   // do not add the fail-then-succeed repetition (history replay)
+	fault   string // when set, the first WriteTo of the next send fails with this kind of error
+	s       *packet.Session
+	conn    *vh.RecConn
+	hook6   reflect.Value // Session.VerifICMP6SendPacket when /repo carries hooks/cksumlog_icmp_send.patch, else invalid
+	hook4   reflect.Value
+	quietH  bool // do not record sends in the history (full sweeps)
 }
 
 func newSess() (*sess, error) {
@@ -371,12 +433,13 @@ func newSess() (*sess, error) {
 	ni := u.NICInfo()
 	ni.IFI = &net.Interface{Index: 1, MTU: 1500, Name: "verif0", HardwareAddr: vh.OwnMAC}
 	conn := vh.NewRecConn()
-	s, err := packet.Config{Conn: conn, NICInfo: ni, ProbeDeadline: time.Minute, OfflineDeadline: 2 * time.Minute,
+	fc := &faultConn{RecConn: conn}
+	s, err := packet.Config{Conn: fc, NICInfo: ni, ProbeDeadline: time.Minute, OfflineDeadline: 2 * time.Minute,
 		PurgeDeadline: 4 * time.Minute}.NewSession("")
 	if err != nil {
 		return nil, err
 	}
-	x := &sess{s: s, conn: conn}
+	x := &sess{s: s, conn: conn, fc: fc}
 	x.hook6 = reflect.ValueOf(s).MethodByName("VerifICMP6SendPacket")
 	x.hook4 = reflect.ValueOf(s).MethodByName("VerifICMP4SendPacket")
 	return x, nil
@@ -384,6 +447,10 @@ func newSess() (*sess, error) {
 
 // raw hands a complete ICMP message (checksum field zero) to icmp6SendPacket / icmp4SendPacket through the verif hook.
 func (x *sess) raw(v6 bool, src, dst packet.Addr, msg []byte) (frames [][]byte, err error, panicked interface{}) {
+	if x.fault != "" {
+		x.fc.arm(faultErr(x.fault))
+		defer x.fc.arm()
+	}
 	x.conn.Take()
 	func() {
 		defer func() { panicked = recover() }()
@@ -445,8 +512,14 @@ func historyCopy() []map[string]interface{} {
 
 // send runs one send function under recover and returns the frames it emitted.
 func (x *sess) send(fn string, src, dst, target packet.Addr, id, seq uint16) (frames [][]byte, err error, panicked interface{}) {
+	if x.fault != "" {
+		x.fc.arm(faultErr(x.fault))
+		defer x.fc.arm()
+	}
 	if !x.quietH {
-		history = append(history, sendRec(fn, src, dst, target, id, seq))
+		rec := sendRec(fn, src, dst, target, id, seq)
+		rec["fault"] = x.fault
+		history = append(history, rec)
 		if len(history) > 4*historyCap {
 			history = append([]map[string]interface{}{}, history[len(history)-historyCap:]...)
 		}
@@ -506,39 +579,72 @@ func addrFromJSON(v interface{}) packet.Addr {
 
 // sendCase executes a send function and checks every emitted frame. expect (optional) = the stored ICMP checksum
 // bytes TLC computed together with the message bytes (checksum field zero) they belong to.
+// lastFault is the fault dimension of the send that failed last (recorded with the case by fail()).
+var lastFault string
+var faultRot int
+
+// sendCase executes a send function and checks every frame that reaches the wire: once without any write failure
+// and once with the first WriteTo failing ("fail then succeed"; the kind of failure rotates, or is the one given).
+// expMsg/exp (optional) = message bytes (checksum field zero) and the stored checksum bytes TLC computed for them.
 func sendCase(x *sess, fn string, src, dst, target packet.Addr, id, seq uint16, expMsg []byte, exp *[2]byte) (ok bool, what string) {
-	frames, err, pan := x.send(fn, src, dst, target, id, seq)
-	if pan != nil {
-		sum.Panics++
-		return false, fmt.Sprintf("panic: %v", pan)
+	return sendCaseF(x, "", fn, src, dst, target, id, seq, expMsg, exp)
+}
+
+func sendCaseF(x *sess, fault string, fn string, src, dst, target packet.Addr, id, seq uint16, expMsg []byte, exp *[2]byte) (ok bool, what string) {
+	faults := []string{""}
+	if fault != "" {
+		faults = []string{fault}
+	} else if !x.noFault {
+		faultRot++
+		faults = append(faults, faultKinds[faultRot%len(faultKinds)])
 	}
-	if err != nil {
-		sum.Refused[fn]++
-		return true, "" // refused by the function (e.g. wrong address family): nothing emitted, nothing to check
-	}
-	if len(frames) == 0 {
-		return true, ""
-	}
-	for _, f := range frames {
-		problem, msg, stored, _, _, _ := checkFrame(f)
-		if problem != "" {
-			return false, problem
+	for _, fk := range faults {
+		lastFault = fk
+		x.fault = fk
+		frames, err, pan := x.send(fn, src, dst, target, id, seq)
+		x.fault = ""
+		if pan != nil {
+			sum.Panics++
+			return false, fmt.Sprintf("panic: %v", pan)
 		}
-		sum.Frames++
-		sum.FramesByFn[fn]++
-		note(f)
-		if exp != nil && msg != nil {
-			z := append([]byte{}, msg...)
-			z[2], z[3] = 0, 0
-			if bytes.Equal(z, expMsg) {
-				if stored != *exp {
-					return false, fmt.Sprintf("stored ICMP checksum %02x%02x, specification expects %02x%02x", stored[0], stored[1], exp[0], exp[1])
+		if err != nil {
+			if fk == "" {
+				sum.Refused[fn]++
+			} else {
+				sum.FaultReturned[fk]++
+			}
+		} else if fk != "" {
+			sum.FaultRecovered[fk]++
+		}
+		// whatever the function returned: every frame that reached the wire must verify
+		for _, f := range frames {
+			problem, msg, stored, _, _, _ := checkFrame(f)
+			if problem != "" {
+				if fk != "" {
+					problem += " (frame transmitted after the first write failed with " + fk + ")"
 				}
-			} else if len(sum.Drift) < 10 {
-				sum.Drift = append(sum.Drift, fn+": emitted message differs from the message modelled in CksumVec.tla (checksum verified independently)")
+				return false, problem
+			}
+			sum.Frames++
+			sum.FramesByFn[fn]++
+			if fk != "" {
+				sum.FramesAfterFault++
+			}
+			note(f)
+			if exp != nil && msg != nil {
+				z := append([]byte{}, msg...)
+				z[2], z[3] = 0, 0
+				if bytes.Equal(z, expMsg) {
+					if stored != *exp {
+						return false, fmt.Sprintf("stored ICMP checksum %02x%02x, specification expects %02x%02x", stored[0], stored[1], exp[0], exp[1])
+					}
+				} else if len(sum.Drift) < 10 {
+					sum.Drift = append(sum.Drift, fn+": emitted message differs from the message modelled in CksumVec.tla (checksum verified independently)")
+				}
 			}
 		}
 	}
+	lastFault = ""
 	return true, ""
 }
 
@@ -672,7 +778,7 @@ func stage12(path string, x *sess) error {
 					dst := packet.Addr{MAC: vh.RouterMAC, IP: pr[1]}
 					sum.LibChecks++
 					sum.LibByOp["ICMP4SendEchoRequest"]++
-					if ok, what := sendCase(x, "ICMP4SendEchoRequest", src, dst, packet.Addr{}, id, seq, b, &e); !ok {
+					if ok, what := sendCaseF(x, v.Flt, "ICMP4SendEchoRequest", src, dst, packet.Addr{}, id, seq, b, &e); !ok {
 						fail("C15:send:ICMP4SendEchoRequest", what, map[string]interface{}{"op": "send", "fn": "ICMP4SendEchoRequest",
 							"src": addrJSON(src), "dst": addrJSON(dst), "id": id, "seq": seq, "msg": hx(b), "e": hx(e[:])})
 					}
@@ -698,7 +804,7 @@ func stage12(path string, x *sess) error {
 				id, seq := binary.BigEndian.Uint16(msg[4:6]), binary.BigEndian.Uint16(msg[6:8])
 				sum.LibChecks++
 				sum.LibByOp["pair:"+v.Pre]++
-				if ok, what := pairCase(x, v.Pre, src, dst, id, seq, msg, &e); !ok {
+				if ok, what := pairCase(x, v.Pre, faultKinds[sum.LibChecks%len(faultKinds)], src, dst, id, seq, msg, &e); !ok {
 					fail("C15:send:ICMP6SendEchoRequest", "after "+v.Pre+": "+what, map[string]interface{}{"op": "pair", "pre": v.Pre,
 						"src": addrJSON(src), "dst": addrJSON(dst), "id": id, "seq": seq, "msg": hx(msg), "e": hx(e[:])})
 				}
@@ -711,7 +817,7 @@ func stage12(path string, x *sess) error {
 				id, seq := binary.BigEndian.Uint16(msg[4:6]), binary.BigEndian.Uint16(msg[6:8])
 				sum.LibChecks++
 				sum.LibByOp["ICMP6SendEchoRequest"]++
-				if ok, what := sendCase(x, "ICMP6SendEchoRequest", src, dst, packet.Addr{}, id, seq, msg, &e); !ok {
+				if ok, what := sendCaseF(x, v.Flt, "ICMP6SendEchoRequest", src, dst, packet.Addr{}, id, seq, msg, &e); !ok {
 					fail("C15:send:ICMP6SendEchoRequest", what, map[string]interface{}{"op": "send", "fn": "ICMP6SendEchoRequest",
 						"src": addrJSON(src), "dst": addrJSON(dst), "id": id, "seq": seq, "msg": hx(msg), "e": hx(e[:])})
 				}
@@ -879,6 +985,76 @@ func stageLong(seed int64, thorough bool) {
 	}
 }
 
+// stageWide: critical totals at every fold width a plausible implementation may use.  For 16-bit folds the TLC
+// families fold / crit6 and stage 5 do it; here the data is read as 32-bit words (little- and big-endian, what an
+// implementation adding wider words into a 64-bit accumulator sees) and as 64-bit words, and the last word is *solved*
+// so that folding the wide accumulator lands exactly on 2^w - 1 + e (e = 0..3: no carry, and the smallest carries that
+// a fold without end-around carry loses), over constant-fill, ramp and random carriers of many lengths.
+func stageWide(rng *rand.Rand, thorough bool) {
+	fills := []string{"aa", "55", "ff", "01", "ramp", "rand", "rand"}
+	lens := []int{12, 16, 20, 24, 36, 40, 48, 60, 64, 120, 240, 576, 1200, 1500}
+	if thorough {
+		for n := 12; n <= 1522; n += 4 {
+			lens = append(lens, n)
+		}
+	}
+	for _, n := range lens {
+		for _, fill := range fills {
+			car := make([]byte, n)
+			switch fill {
+			case "ramp":
+				for i := range car {
+					car[i] = byte(i)
+				}
+			case "rand":
+				rng.Read(car)
+			default:
+				v, _ := strconv.ParseUint(fill, 16, 8)
+				for i := range car {
+					car[i] = byte(v)
+				}
+			}
+			for _, le := range []bool{true, false} {
+				// 32-bit words: base = sum of all words but the last
+				k := n/4 - 1
+				var base uint64
+				for j := 0; j < k; j++ {
+					if le {
+						base += uint64(binary.LittleEndian.Uint32(car[4*j:]))
+					} else {
+						base += uint64(binary.BigEndian.Uint32(car[4*j:]))
+					}
+				}
+				hb, lb := base>>32, base&0xffffffff
+				for e := uint64(0); e <= 3; e++ {
+					// want (hb + carry) + ((lb + W) mod 2^32) = 2^32 - 1 + e
+					var w uint64
+					ok := false
+					if t := uint64(1)<<32 - 1 + e; t >= hb && t-hb >= lb && t-hb < 1<<32 {
+						w, ok = t-hb-lb, true
+					} else if t >= hb+1 && t-hb-1 < lb {
+						w, ok = t-hb-1+(1<<32)-lb, true
+					}
+					if !ok || w >= 1<<32 {
+						continue
+					}
+					b := append([]byte{}, car[:4*(k+1)]...)
+					if le {
+						binary.LittleEndian.PutUint32(b[4*k:], uint32(w))
+					} else {
+						binary.BigEndian.PutUint32(b[4*k:], uint32(w))
+					}
+					sum.WideFold++
+					note(b)
+					libCheck(b, fmt.Sprintf("32-bit word sum solved to 2^32-1+%d, %s fill", e, fill))
+					// the same bytes with an odd tail and as an IPv4 header / ICMP message when long enough
+					libCheck(append(b, 0x5a), "32-bit critical total + odd tail")
+				}
+			}
+		}
+	}
+}
+
 // stage3b: IPv4 header field values and ICMP payloads beyond the TLC classes, judged by the validated transcription:
 // every ttl x every protocol (seeded addresses), every payload length 0..1480, echo messages with seeded data of
 // every length 0..1472.
@@ -930,7 +1106,10 @@ func stage3b(rng *rand.Rand, thorough bool) {
 
 // pairCase: one transmission `pre` that fills the pooled transmit buffer with non-zero bytes (target address and MAC
 // without zero bytes, long echo id), then the echo request whose checksum bytes TLC computed.
-func pairCase(x *sess, pre string, src, dst packet.Addr, id, seq uint16, expMsg []byte, exp *[2]byte) (bool, string) {
+func pairCase(x *sess, pre string, fault string, src, dst packet.Addr, id, seq uint16, expMsg []byte, exp *[2]byte) (bool, string) {
+	saved := x.noFault
+	x.noFault = true
+	defer func() { x.noFault = saved }()
 	dirty := packet.Addr{MAC: net.HardwareAddr{0x9a, 0x99, 0x98, 0x97, 0x96, 0x95}, IP: netip.MustParseAddr("fe80::9191:9292:9393:9499")}
 	psrc, pdst := src, dst
 	if pre == "ICMP4SendEchoRequest" {
@@ -939,6 +1118,11 @@ func pairCase(x *sess, pre string, src, dst packet.Addr, id, seq uint16, expMsg 
 	}
 	if ok, what := sendCase(x, pre, psrc, pdst, dirty, 0x9995, 0x9793, nil, nil); !ok {
 		return false, "preceding " + pre + ": " + what
+	}
+	if fault != "" { // the echo request once more, this time with its first write failing
+		if ok, what := sendCaseF(x, fault, "ICMP6SendEchoRequest", src, dst, packet.Addr{}, id, seq, expMsg, exp); !ok {
+			return false, what
+		}
 	}
 	return sendCase(x, "ICMP6SendEchoRequest", src, dst, packet.Addr{}, id, seq, expMsg, exp)
 }
@@ -1046,6 +1230,10 @@ type raCfg struct {
 }
 
 func (x *sess) sendRA(c raCfg) (frame []byte, err error, pan interface{}) {
+	if x.fault != "" {
+		x.fc.arm(faultErr(x.fault))
+		defer x.fc.arm()
+	}
 	x.conn.Take()
 	func() {
 		defer func() { pan = recover() }()
@@ -1099,6 +1287,18 @@ func raFail(c raCfg, what string) {
 
 // raOne sends one RA and judges the frame. Returns the total sum (checksum field zero) when the frame is usable.
 func raOne(x *sess, c raCfg) (total uint16, ok bool) {
+	if sum.Directed%8 == 3 { // fail-then-succeed: nothing may reach the wire unverified
+		x.fault = faultKinds[sum.Directed/8%len(faultKinds)]
+		f, _, _ := x.sendRA(c)
+		fk := x.fault
+		x.fault = ""
+		if f != nil {
+			sum.FramesAfterFault++
+			if problem, _, _, _, _, _ := checkFrame(f); problem != "" {
+				raFail(c, problem+" (frame transmitted after the first write failed with "+fk+")")
+			}
+		}
+	}
 	f, err, pan := x.sendRA(c)
 	if pan != nil {
 		sum.Panics++
@@ -1451,7 +1651,7 @@ func runCase(js string) int {
 		}
 		defer x.close()
 		e := unhex("e")
-		ok, what := pairCase(x, str("pre"), addrFromJSON(c["src"]), addrFromJSON(c["dst"]), uint16(num("id")), uint16(num("seq")), unhex("msg"), &[2]byte{e[0], e[1]})
+		ok, what := pairCase(x, str("pre"), str("fault"), addrFromJSON(c["src"]), addrFromJSON(c["dst"]), uint16(num("id")), uint16(num("seq")), unhex("msg"), &[2]byte{e[0], e[1]})
 		res["reproduced"] = !ok
 		res["what"] = what
 	case "send":
@@ -1467,16 +1667,19 @@ func runCase(js string) int {
 				fn, _ := m["fn"].(string)
 				id, _ := m["id"].(float64)
 				sq, _ := m["seq"].(float64)
+				x.fault, _ = m["fault"].(string)
 				x.send(fn, addrFromJSON(m["src"]), addrFromJSON(m["dst"]), addrFromJSON(m["target"]), uint16(id), uint16(sq))
+				x.fault = ""
 			}
 		}
+		x.noFault = true
 		var exp *[2]byte
 		var msg []byte
 		if e := unhex("e"); len(e) == 2 {
 			exp = &[2]byte{e[0], e[1]}
 			msg = unhex("msg")
 		}
-		ok, what := sendCase(x, str("fn"), addrFromJSON(c["src"]), addrFromJSON(c["dst"]), addrFromJSON(c["target"]),
+		ok, what := sendCaseF(x, str("fault"), str("fn"), addrFromJSON(c["src"]), addrFromJSON(c["dst"]), addrFromJSON(c["target"]),
 			uint16(num("id")), uint16(num("seq")), msg, exp)
 		res["reproduced"] = !ok
 		res["what"] = what
@@ -1531,6 +1734,7 @@ func main() {
 		stage3(rng, thorough)
 		stage3b(rng, thorough)
 		stageLong(seed, thorough)
+		stageWide(rng, thorough)
 	} else {
 		x.close()
 	}
